@@ -171,6 +171,32 @@ class CellMap:
 CELLMAP = CellMap()
 
 
+_INTERFERE_N = [0]
+
+
+def interfere(cfg):
+    """construct and use sketches of OTHER configurations of the same family (see World.interfere)"""
+    _INTERFERE_N[0] += 1
+    try:
+        cfgs = decoy_configs(cfg)
+        c = cfgs[_INTERFERE_N[0] % len(cfgs)]
+        a, b = make_sketch(c), make_sketch(c)
+        if c["kind"] in ("log16", "log8"):
+            plant(a, [0.0])
+            plant(b, [0.5])
+        a.add(b"decoy", 3)
+        b.add(b"decoy2", 70)
+        a.merge(b)
+        if c["kind"] == "hll":
+            a.query()
+        elif c["kind"] == "hh":
+            a.query(3)
+        else:
+            a.query(b"decoy")
+    except Exception:
+        pass
+
+
 class World:
     def __init__(self, cfg, n_sketches=2, tmp_root=None):
         self.cfg = dict(cfg)
@@ -185,6 +211,8 @@ class World:
         self.flags = set()
         self.decoys = None
         self.nstep = 0
+        if self.kind in ("log16", "log8"):
+            numba_seed(20221103)  # refills (adds of more than 2048 units) are then a function of the history alone
 
     # ---- model side
     def mkey(self, k):
